@@ -48,6 +48,11 @@ enum Job {
     /// regions (heterogeneous, in its own order), all builders share ONE VariationStoreBuilder;
     /// output = ItemVariationStore bytes + remapped GPOS bytes   (kind, variant)
     VarBuilder(&'static str, u32),
+    /// gvar whose glyphs carry several DISTINCT private point-number sets used equally often and of equal packed
+    /// size (2- and 3-way ties in compute_shared_points), explicit required/optional flags   (seed)
+    GvarTies(u64),
+    /// the same kind of ties arising naturally: deltas of symmetric outlines run through iup_delta_optimize  (seed)
+    GvarIup(u64),
 }
 
 /// one lookup = list of subtables (first glyph, number of glyphs, glyph stride)
@@ -217,7 +222,7 @@ fn promo_case(spec: &PromoSpec, bytes: &[u8]) -> Option<(String, bool)> {
 /// jobs whose code paths iterate freshly created hash containers: repeated >= 32 times in one process
 fn hash_sensitive(j: &Job) -> bool {
     match j {
-        Job::Builder(..) | Job::VarBuilder(..) | Job::TiedPromo(_) | Job::SharedCovGsub(_) | Job::Ivs(_) | Job::Gvar(_) | Job::BigGpos(..) | Job::SplitGpos(..) => true,
+        Job::Builder(..) | Job::VarBuilder(..) | Job::TiedPromo(_) | Job::SharedCovGsub(_) | Job::Ivs(_) | Job::Gvar(_) | Job::GvarTies(_) | Job::GvarIup(_) | Job::BigGpos(..) | Job::SplitGpos(..) => true,
         Job::Dag(d) => d.has_width(4) && d.nodes.len() <= 12 && d.nodes[0].iter().filter(|i| matches!(i, c05gen::Item::Link(4, _))).count() >= 4,
         _ => false,
     }
@@ -569,6 +574,154 @@ fn var_builder_job(kind: &str, v: u32) -> Vec<u8> {
     out
 }
 
+/// the point-number sets of one glyph's tuples as compute_shared_points sees them (indices of the required deltas;
+/// None = all / no point required, i.e. `PackedPointNumbers::All`), for the coverage statistics only:
+/// does the glyph have >= 2 distinct explicit sets with the same use count (>= 2) and the same cardinality
+/// (= same packed size, all point numbers < 256), and is that count the maximum saving?
+fn point_set_tie(tuples: &[Vec<write_fonts::tables::gvar::GlyphDelta>]) -> usize {
+    let mut counts: Vec<(Vec<usize>, usize)> = vec![];
+    for t in tuples {
+        let set: Vec<usize> = t.iter().enumerate().filter(|(_, d)| d.required).map(|(i, _)| i).collect();
+        if set.is_empty() || set.len() == t.len() {
+            continue;
+        }
+        match counts.iter_mut().find(|(s, _)| *s == set) {
+            Some(e) => e.1 += 1,
+            None => counts.push((set, 1)),
+        }
+    }
+    let best = counts.iter().filter(|(_, c)| *c > 1).map(|(s, c)| (c - 1) * (s.len() + 2)).max().unwrap_or(0);
+    if best == 0 {
+        return 0;
+    }
+    counts.iter().filter(|(s, c)| *c > 1 && (c - 1) * (s.len() + 2) == best).count()
+}
+
+fn gvar_bytes(glyphs: Vec<write_fonts::tables::gvar::GlyphVariations>) -> Vec<u8> {
+    match write_fonts::tables::gvar::Gvar::new(glyphs, 2) {
+        Ok(t) => dump_table(&t).unwrap_or_else(|e| err_bytes("gvar", e)),
+        Err(e) => err_bytes("gvar-new", format!("{e:?}")),
+    }
+}
+
+/// distinct (x, y) peaks: tuple k of a glyph varies in region k
+fn gvar_tents(k: usize) -> Vec<write_fonts::tables::gvar::Tent> {
+    use write_fonts::tables::gvar::Tent;
+    use write_fonts::types::F2Dot14;
+    let peaks = [-1.0f32, -0.5, 0.25, 0.5, 1.0];
+    vec![Tent::new(F2Dot14::from_f32(peaks[k % 5]), None), Tent::new(F2Dot14::from_f32(peaks[(k / 5) % 5]), None)]
+}
+
+/// explicit ties: m (2..3) distinct point sets of equal cardinality, each used r (2..3) times, tuples interleaved;
+/// plus controls (one set strictly more frequent, sets of different size, an all-points tuple).
+/// Returns the glyphs and the number of glyphs whose best candidates tie (2-way, 3-way).
+fn gvar_ties_glyphs(seed: u64) -> (Vec<write_fonts::tables::gvar::GlyphVariations>, [usize; 4]) {
+    use write_fonts::tables::gvar::{GlyphDelta, GlyphDeltas, GlyphVariations};
+    use write_fonts::types::GlyphId;
+    let mut rng = Rng::new(seed ^ 0x6776_7469_6573);
+    let mut glyphs = vec![];
+    let mut ties = [0usize; 4];
+    for gid in 0..48u32 {
+        let npts = 8 + rng.below(10) as usize;
+        let card = 2 + rng.below(3) as usize;
+        let m = 2 + rng.below(2) as usize;
+        let r = 2 + rng.below(2) as usize;
+        // m distinct sets of `card` points
+        let mut sets: Vec<Vec<usize>> = vec![];
+        while sets.len() < m {
+            let mut idx: Vec<usize> = (0..npts).collect();
+            rng.shuffle(&mut idx);
+            let mut set: Vec<usize> = idx.into_iter().take(card).collect();
+            set.sort();
+            if !sets.contains(&set) {
+                sets.push(set);
+            }
+        }
+        let mut uses: Vec<usize> = (0..m).flat_map(|i| std::iter::repeat(i).take(r)).collect();
+        match gid % 6 {
+            // controls
+            3 => uses.push(0),                       // set 0 strictly more frequent
+            4 => sets[1].push(npts - 1), // (usually) makes set 1 larger than the others
+            _ => {}
+        }
+        sets[1].sort();
+        sets[1].dedup();
+        rng.shuffle(&mut uses);
+        let mut tuples: Vec<Vec<GlyphDelta>> = uses
+            .iter()
+            .enumerate()
+            .map(|(k, si)| (0..npts).map(|i| if sets[*si].contains(&i) { GlyphDelta::required(3 + k as i16 + i as i16, -(k as i16) - 2 * i as i16) } else { GlyphDelta::optional(0, 0) }).collect())
+            .collect();
+        if gid % 6 == 5 {
+            tuples.push((0..npts).map(|i| GlyphDelta::required(i as i16, 1)).collect());
+        }
+        ties[point_set_tie(&tuples).min(3)] += 1;
+        let vars = tuples.into_iter().enumerate().map(|(k, d)| GlyphDeltas::new(gvar_tents(k), d)).collect();
+        glyphs.push(GlyphVariations::new(GlyphId::new(gid), vars));
+    }
+    (glyphs, ties)
+}
+
+/// ties arising from IUP: an outline of 2..3 congruent rectangles; a master either stretches ONE of the rectangles
+/// (its right edge moves, the left one stays) or moves one of them; two masters per rectangle. iup_delta_optimize
+/// decides which deltas are required, so the tuples of different rectangles get different, equally large point sets.
+fn gvar_iup_glyphs(seed: u64) -> (Vec<write_fonts::tables::gvar::GlyphVariations>, [usize; 4]) {
+    use kurbo::{Point, Vec2};
+    use write_fonts::tables::gvar::iup::iup_delta_optimize;
+    use write_fonts::tables::gvar::{GlyphDelta, GlyphDeltas, GlyphVariations};
+    use write_fonts::types::GlyphId;
+    let mut rng = Rng::new(seed ^ 0x6776_6975_70);
+    let mut glyphs = vec![];
+    let mut ties = [0usize; 4];
+    for gid in 0..40u32 {
+        let nrect = 2 + rng.below(2) as usize;
+        let per = 4 + 2 * rng.below(3) as usize; // points per contour: 4 (rectangle), 6, 8 (extra on-edge points)
+        let (w, h) = (100.0 + 10.0 * rng.below(5) as f64, 200.0 + 20.0 * rng.below(4) as f64);
+        let mut coords = vec![];
+        let mut ends = vec![];
+        for c in 0..nrect {
+            let x0 = 50.0 + c as f64 * (w + 60.0);
+            let extra = (per - 4) / 2;
+            // bottom edge left->right with `extra` inner points, then top edge right->left
+            for i in 0..=extra + 1 {
+                coords.push(Point::new(x0 + w * i as f64 / (extra + 1) as f64, 0.0));
+            }
+            for i in 0..=extra + 1 {
+                coords.push(Point::new(x0 + w - w * i as f64 / (extra + 1) as f64, h));
+            }
+            ends.push(coords.len() - 1);
+        }
+        let n_real = coords.len();
+        for px in [0.0, 600.0, 0.0, 0.0] {
+            coords.push(Point::new(px, 0.0));
+        }
+        let masters_per_rect = 2 + rng.below(2) as usize;
+        let mut order: Vec<(usize, usize)> = (0..nrect).flat_map(|c| (0..masters_per_rect).map(move |k| (c, k))).collect();
+        rng.shuffle(&mut order);
+        let stretch = rng.chance(2, 3);
+        let mut tuples: Vec<Vec<GlyphDelta>> = vec![];
+        for (c, k) in order {
+            let amount = 10.0 + 7.0 * k as f64;
+            let mut deltas = vec![Vec2::ZERO; coords.len()];
+            for i in 0..n_real {
+                if i / per == c {
+                    let x0 = 50.0 + c as f64 * (w + 60.0);
+                    let rel = (coords[i].x - x0) / w;
+                    deltas[i] = if stretch { Vec2::new((amount * rel).round(), 0.0) } else { Vec2::new(amount, if coords[i].y > 0.0 { amount } else { 0.0 }) };
+                }
+            }
+            match iup_delta_optimize(deltas, coords.clone(), 0.5, &ends) {
+                Ok(d) => tuples.push(d),
+                Err(_) => {}
+            }
+        }
+        ties[point_set_tie(&tuples).min(3)] += 1;
+        let vars = tuples.into_iter().enumerate().map(|(k, d)| GlyphDeltas::new(gvar_tents(k), d)).collect();
+        glyphs.push(GlyphVariations::new(GlyphId::new(gid), vars));
+    }
+    (glyphs, ties)
+}
+
 fn shared_cov_gsub(pairs: u16) -> Vec<u8> {
     use write_fonts::tables::gsub::{Gsub, SingleSubst, SubstitutionLookup};
     use write_fonts::tables::layout::{CoverageTable, Lookup, LookupFlag, LookupList};
@@ -732,6 +885,8 @@ fn run_job(job: &Job) -> Result<Vec<u8>, String> {
                 Err(e) => err_bytes("gvar-new", format!("{e:?}")),
             }
         }
+        Job::GvarTies(seed) => gvar_bytes(gvar_ties_glyphs(*seed).0),
+        Job::GvarIup(seed) => gvar_bytes(gvar_iup_glyphs(*seed).0),
         Job::BuildFont(fi) => {
             let font = FontRef::new(fonts()[*fi].1).unwrap();
             let mut b = FontBuilder::new();
@@ -794,6 +949,8 @@ fn job_name(j: &Job) -> String {
         Job::SplitGpos(g, w) => format!("splitgpos:{g}:{w}"),
         Job::Ivs(s) => format!("ivs:{s}"),
         Job::Gvar(s) => format!("gvar:{s}"),
+        Job::GvarTies(s) => format!("gvarties:{s}"),
+        Job::GvarIup(s) => format!("gvariup:{s}"),
         Job::BuildFont(f) => format!("fontbuilder:{}", fonts()[*f].0),
         Job::Subset(f, p) => format!("subset:{}:{}", fonts()[*f].0, p),
         Job::Builder(k, v) => format!("builder:{k}:{v}"),
@@ -878,6 +1035,10 @@ fn make_jobs(seed: u64, thorough: bool) -> Vec<Job> {
     jobs.push(Job::BigGpos(3, 50, 300));
     jobs.push(Job::Gvar(1));
     jobs.push(Job::Gvar(2));
+    for k in 0..(if thorough { 6 } else { 3 }) {
+        jobs.push(Job::GvarTies(1 + k));
+        jobs.push(Job::GvarIup(1 + k));
+    }
     jobs.push(Job::Ivs(1));
     jobs.push(Job::Ivs(2));
     jobs
@@ -949,6 +1110,17 @@ fn main() {
             st.oracle_failure(json!({"key": key, "job": job_name(j), "what": "compilation panics (no bytes)", "digest": r}));
         }
         st.nontrivial(&job_name(j));
+    }
+    for j in jobs.iter() {
+        let (kind, t) = match j {
+            Job::GvarTies(s) => ("gvarties", gvar_ties_glyphs(*s).1),
+            Job::GvarIup(s) => ("gvariup", gvar_iup_glyphs(*s).1),
+            _ => continue,
+        };
+        st.add(&format!("{kind}.glyphs_no_shared_candidate"), t[0] as u64);
+        st.add(&format!("{kind}.glyphs_unique_best_point_set"), t[1] as u64);
+        st.add(&format!("{kind}.glyphs_2way_tied_point_sets"), t[2] as u64);
+        st.add(&format!("{kind}.glyphs_3way_tied_point_sets"), t[3] as u64);
     }
     let mut disagreements: BTreeMap<String, Vec<String>> = BTreeMap::new();
     let mut note = |name: String, how: String, dis: &mut BTreeMap<String, Vec<String>>| {
